@@ -282,6 +282,40 @@ func judgeC05(c c05Case) (string, string) {
 		if !o.Res.OK() {
 			return "transfer-failed", fmt.Sprintf("send=%v recv=%v", o.Res.SendErr, o.Res.RecvErr)
 		}
+		if sc.MetaOn {
+			// the listing file is not an entry of the transfer; then the same source once more: nothing changed
+			strip := func(t fsmodel.Tree) fsmodel.Tree {
+				var out fsmodel.Tree
+				for _, n := range t {
+					if n.Path != listingName {
+						out = append(out, n)
+					}
+				}
+				return out
+			}
+			stripNotes := func(ns []xfer.Note) []xfer.Note {
+				var out []xfer.Note
+				for _, n := range ns {
+					if n.Path != listingName { // the previous listing is removed as stale and written anew
+						out = append(out, n)
+					}
+				}
+				return out
+			}
+			o.Before, o.After, o.Notes = strip(o.Before), strip(o.After), stripNotes(o.Notes)
+			if k, m := judgeNotes(o); k != "" {
+				return "metadata-only:" + k, m
+			}
+			o2 := d.transfer(sc, sc.Src)
+			if o2.Err != "" || !o2.Res.OK() {
+				return "metadata-only:transfer-failed", fmt.Sprintf("second sync: %s send=%v recv=%v", o2.Err, o2.Res.SendErr, o2.Res.RecvErr)
+			}
+			o2.Before, o2.After, o2.Notes = strip(o2.Before), strip(o2.After), stripNotes(o2.Notes)
+			if k, m := judgeNotes(o2); k != "" {
+				return "metadata-only:resync:" + k, "second sync of the unchanged source: " + m
+			}
+			return "", ""
+		}
 	}
 	return judgeNotes(o)
 }
@@ -329,6 +363,39 @@ func c05Cases(tier string) []c05Case {
 		}
 	}
 	out = append(out, c05AbortCases(tier)...)
+	// metadata-only receives with the change callback: every selector subset of small trees with nested directories
+	{
+		T := fsmodel.T0
+		f := func(p string, seed int) fsmodel.Node {
+			return fsmodel.Node{Path: p, Kind: fsmodel.File, Perm: 0644, Mtime: T + int64(seed), Data: fsmodel.Content(seed, 4)}
+		}
+		dd := func(p string, seed int) fsmodel.Node {
+			return fsmodel.Node{Path: p, Kind: fsmodel.Dir, Perm: 0755, Mtime: T + int64(seed)}
+		}
+		mtrees := []fsmodel.Tree{
+			{dd("d", 1), f("d/a", 2), f("d/b", 3), dd("d/e", 4), f("d/e/c", 5), f("z", 6)},
+			{f("a", 1), dd("b", 2), dd("b/c", 3), f("b/c/x", 4), f("b/c/y", 5), dd("q", 6)},
+		}
+		for _, mt := range mtrees {
+			mt.Sort()
+			paths := mt.Paths()
+			for mask := 0; mask < 1<<len(paths); mask++ {
+				var sel []string
+				for i, p := range paths {
+					if mask&(1<<i) != 0 {
+						sel = append(sel, p)
+					}
+				}
+				for _, mem := range []bool{true, false} {
+					if !mem && tier != "thorough" && mask%4 != 3 {
+						continue
+					}
+					c := SyncCase{Src: mt, Mem: mem, MetaOn: true, MetaSel: sel}
+					out = append(out, c05Case{Sync: &c})
+				}
+			}
+		}
+	}
 	// files that changed size between listing and reading: whatever is stored, the digest covers exactly that
 	for _, base := range baseTrees() {
 		for _, delta := range []int{-3, -1 << 30, 5} {
